@@ -81,9 +81,9 @@ CHECKS = {
   "trusts the model projector's prefix rule (15 lines from the statement)",
   "runtime monitoring: execution vs executable reference model, fault injection for the rejected variants"),
  "C18": ("fault_enumeration",
-  "held on the observed (ban set, document) pairs: all 30 single bans and random larger sets against generated accepted documents written directly, through macros and through included files; a hit is rejected with 'directive not allowed' naming a banned kind and (directly) located in such a directive, a banned INCLUDE is refused before its file matters, and a ban that hits nothing changes neither verdict nor catalog bytes",
+  "held on the observed (ban set, document) pairs: all 30 single bans and random larger sets against generated accepted documents written directly, through macros and through included files; a hit is rejected with 'directive not allowed' naming a banned kind and (directly) located in such a directive, a banned INCLUDE is refused before its file matters (by diagnostic, and by a syscall trace of on-disk projects in which only the root file may be opened), and a ban that hits nothing changes neither verdict nor catalog bytes",
   "trusts the renderer's span map and a keyword scan of the rendered text for 'which kinds occur'",
-  "runtime monitoring over configurations: oracle on each execution under an option set, plus metamorphic equality with the option-free execution"),
+  "runtime monitoring over configurations: oracle on each execution under an option set, metamorphic equality with the option-free execution, syscall trace (strace) as event log checked offline"),
  "C20": ("exploration",
   "held on the observed additions and deletions: each of eight kinds of fresh independent declaration at every insertion point of generated accepted documents yields the old catalog plus exactly the new entries; deleting an unreferenced declaration removes exactly its entry",
   "trusts the order-preserving JSON decoder; 'unreferenced' is decided on the rendered text",
@@ -106,8 +106,8 @@ def main():
        "kind_free_text": "driver + crash-attributing worker processes + oracles over observations of the real library (runtime monitoring)"},
       {"name": "jsmon-race", "path": "harness/cmd/jsmon", "serves_properties": ["C16"],
        "kind_free_text": "the same binary built with -race (Go race detector, checkptr)"},
-      {"name": "strace", "path": "/usr/bin/strace", "serves_properties": ["C08"],
-       "kind_free_text": "syscall tracer used as outside observer of file access (open/openat/readlink/stat) for the INCLUDE confinement check"},
+      {"name": "strace", "path": "/usr/bin/strace", "serves_properties": ["C08", "C18"],
+       "kind_free_text": "syscall tracer used as outside observer of file access (open/openat/readlink/stat): INCLUDE confinement (C08) and 'a banned INCLUDE reads no file' (C18)"},
       {"name": "porcupine", "path": "harness/internal/checks/c16.go", "serves_properties": ["C16"],
        "kind_free_text": "linearizability checker (porcupine v1.3.0) over recorded collection histories"},
      ],
